@@ -689,16 +689,28 @@ int tls13_process_client_hello_exts(const uint8_t *exts, size_t extslen,
 			break;
 		*/
 		case TLS_extension_supported_versions:
+			// length of this reply first: it must fit behind what is already in server_exts
+			len = 0;
 			if (tls13_process_client_supported_versions(ext_data, ext_datalen, NULL, &len) != 1
-				|| len > server_exts_maxlen) {
+				|| len > server_exts_maxlen
+				|| *server_exts_len > server_exts_maxlen - len) {
 				error_print();
 				return -1;
 			}
 			tls13_process_client_supported_versions(ext_data, ext_datalen, &server_exts, server_exts_len);
 			break;
 		case TLS_extension_key_share:
-			if (tls13_process_client_key_share(ext_data, ext_datalen, server_ecdhe_key, client_ecdhe_public, &server_exts, server_exts_len) != 1
-				|| len > server_exts_maxlen) {
+			{
+			uint8_t *dry = NULL;
+			len = 0;
+			if (tls13_process_client_key_share(ext_data, ext_datalen, server_ecdhe_key, client_ecdhe_public, &dry, &len) != 1
+				|| len > server_exts_maxlen
+				|| *server_exts_len > server_exts_maxlen - len) {
+				error_print();
+				return -1;
+			}
+			}
+			if (tls13_process_client_key_share(ext_data, ext_datalen, server_ecdhe_key, client_ecdhe_public, &server_exts, server_exts_len) != 1) {
 				error_print();
 				return -1;
 			}
